@@ -248,7 +248,9 @@ func (q *OutQueue) cleanAckedChunks() {
 		}
 	}
 	if len(q.acked) > MaxCachedChunks {
-		q.acked = q.acked[0:MaxCachedChunks]
+		// Remember the most recent acknowledgements (the oldest ones must expire, or they
+		// would retire unrelated packets once the 16-bit sequence number wraps around)
+		q.acked = q.acked[len(q.acked)-MaxCachedChunks:]
 	}
 
 	q.checkQueueFull()
